@@ -49,7 +49,9 @@ def main():
         "hooks": {
             "guard": "USIM_VERIF",
             "enable": "no hook is compiled into /repo: the seam wraps Loop._run_coroutine / "
-                      "Loop.schedule / Loop.__init__ from outside for the duration of a run "
+                      "Loop.schedule / Loop.__init__ / Loop.run from outside for the duration of a run, "
+                      "and falls back to sys.setprofile (send/throw calls issued by "
+                      "usim/_core/loop.py) when Loop has no per-activation method "
                       "(usimdst/seam.py); USIM_VERIF is reserved and unused",
             "baseline_off_cmd": "cd /repo && /venv/bin/python -m pytest -ra -q "
                                 "-p no:cacheprovider --timeout=900 "
